@@ -110,13 +110,20 @@ pub fn generate(sink: &mut Sink, seed: u64, thorough: bool) {
         if run2.file != run.file {
             sink.fail("C19", "copy/nondeterministic-writer", &prog.case_line(&lv), "writing the same content twice gave different files");
         }
-        sources.push(("written".into(), run.file, true));
+        sources.push((prog.case_line(&lv), run.file, true));
     }
     for (name, bytes) in bundled_files(if thorough { 800_000 } else { 60_000 }) {
         sources.push((format!("bundled_{name}"), bytes, false));
     }
+    let mut sweeps_done = 0;
     for (tag, file, own) in sources {
-        let Ok(Ok(sc)) = guarded(|| read_scene(&file, 1_000_000)) else { continue };
+        let Ok(Ok(sc)) = guarded(|| read_scene(&file, 1_000_000)) else {
+            if own {
+                // a file this writer just produced from calls that all succeeded must be readable
+                sink.fail("C19", "copy/source-unreadable", &tag, "a file written by the library (all calls succeeded) cannot be read back, so it cannot be copied");
+            }
+            continue;
+        };
         if !writer_rules_ok(&sc) {
             sink.stat("skipped_not_expressible");
             continue;
@@ -153,6 +160,34 @@ pub fn generate(sink: &mut Sink, seed: u64, thorough: bool) {
         }
         sink.stat(&format!("copied_{}", if own { "written" } else { "bundled" }));
         sink.case(line, run_line(&run), true);
+        // position sweep: the same copy behind a spacer blob of length r, so that every section of
+        // the copy meets the page boundaries at every residue (sources of other producers only:
+        // they do not depend on the writer under test)
+        if !own && file.len() <= 20_000 && sc.clouds.iter().any(|c| !c.points.is_empty()) && sweeps_done < if thorough { 6 } else { 2 } {
+            sweeps_done += 1;
+            let step = if thorough { 1 } else { 5 };
+            let mut r = (seed as usize) % step;
+            while r < 1020 {
+                let mut p2 = prog.clone();
+                p2.stmts.insert(0, Stmt::Blob(Data::Gen(r, r % 200)));
+                let d = SimDev::new(vec![]);
+                let run = execute(&p2, &d);
+                let l2 = p2.case_line(&lv);
+                sink.oracle_evals += 1;
+                let okrun = !run.panicked && !run.results.iter().any(|x| x == "err");
+                match (okrun, guarded(|| read_scene(&run.file, 1_000_000))) {
+                    (true, Ok(Ok(sc2))) => {
+                        if let Some((_, sig, detail)) = content_diffs(&sc, &sc2, own).first() {
+                            sink.fail("C19", &format!("copy/content/{sig}"), &l2, &format!("content of the copy (behind a {r}-byte blob) differs from the original ({tag}): {detail}"));
+                        }
+                    }
+                    _ => sink.fail("C19", "copy/unreadable", &l2, &format!("the copy behind a {r}-byte blob cannot be written or read ({tag})")),
+                }
+                sink.stat("copied_sweep");
+                sink.case(l2, run_line(&run), true);
+                r += step;
+            }
+        }
     }
 }
 
